@@ -285,6 +285,11 @@ def _check_debug(case, res, snaps, rec):
             changed_vs_prev = pp is None or pp.shape != a.shape or not np.allclose(a.astype(float), pp.astype(float), equal_nan=True)
             if changed_vs_before and changed_vs_prev:
                 rec.check(name in recorded, "debug_record_incomplete", f"{path}: model changed {name} ({None if bf is None else bf.ravel()[:3]} -> {a.ravel()[:3]}) but it was not recorded")
+            if not changed_vs_before and not changed_vs_prev and not (a.dtype.kind == "f" and np.isnan(a).any()):
+                # (a frame containing NaN never compares equal to itself element-wise, pyxel records it again: over-recording, not asserted)
+                # neither this model nor the reset before it touched the bucket (e.g. the pixel content carried through a non-destructive readout)
+                rec.check(name not in recorded, "debug_record_of_unchanged_bucket",
+                          f"{path}: {name} is recorded under this model although it held {a.ravel()[:3]} before the model, after it and after the previous model")
         prev_post = after
     extra = [k for k in inter.children if k.startswith("time_idx_") and int(k.rsplit("_", 1)[1]) >= n]
     rec.check(not extra and "last" not in inter.children, "debug_tree_extra_nodes", f"{extra} / last in result: {'last' in inter.children}")
